@@ -122,6 +122,27 @@ def _headers_digest():
     return h.hexdigest()
 
 
+CACHE_MAX, CACHE_KEEP = 4000, 2000
+
+
+def _prune_cache():
+    """the cache is keyed by content: every variant of the tree that is analysed (seeded or behaviour-preserving patches, scratch
+    copies of the controls) adds entries, a header change adds one per unit.  Keep it bounded: beyond CACHE_MAX entries the oldest
+    (by last use) are dropped down to CACHE_KEEP.  Entries are re-created on demand."""
+    try:
+        ents = [(e.stat().st_mtime, e.path) for e in os.scandir(CACHE) if e.is_file()]
+    except OSError:
+        return
+    if len(ents) <= CACHE_MAX:
+        return
+    ents.sort()
+    for _, path in ents[:len(ents) - CACHE_KEEP]:
+        try:
+            os.remove(path)
+        except OSError:
+            pass
+
+
 def export_units(files):
     """Return {file: parsed JSON} for the given absolute source paths (cached by content)."""
     if not os.path.exists(D0AST):
@@ -130,6 +151,7 @@ def export_units(files):
     sd = scratch_dir()
     hd = _headers_digest()
     os.makedirs(CACHE, exist_ok=True)
+    _prune_cache()
     todo = []
     keys = {}
     for f in files:
@@ -140,6 +162,11 @@ def export_units(files):
         keys[f] = os.path.join(CACHE, k + '.json')
         if not os.path.exists(keys[f]):
             todo.append(f)
+        else:
+            try:
+                os.utime(keys[f])            # last use, for the pruning order
+            except OSError:
+                pass
     if todo:
         dbdir = os.path.join(sd, 'db')
         os.makedirs(dbdir, exist_ok=True)
